@@ -6,7 +6,7 @@ from vlib import Check, tlc, run_bin, workdir, write_ndjson, read_ndjson, log
 META = {
     "property_id": "C09",
     "level": "model_checking",
-    "technique": "TLA+ spec (Codecs: ASCII85, PNG row filters/Paeth, zlib stored blocks + adler32, LZW; StreamOps: "
+    "technique": "TLA+ spec (Codecs: ASCII85, ASCIIHex, RunLength, PNG row filters/Paeth incl. sub-byte components, TIFF predictor, zlib stored blocks + adler32, LZW; StreamOps: "
                  "set_content/set_plain_content/compress/decompress) model-checked by TLC; TLC-generated (plain, chain, "
                  "params, paramsForm, encoded) cases replayed into lopdf::Stream and png::decode_row; recorded lopdf "
                  "operation sequences judged by Trace_StreamOps",
@@ -727,6 +727,10 @@ def run(tier):
     trace_phase(chk, tier, w)          # (V)+(B)
     big_phase(chk, tier, w)            # (V)+(B) large / highly compressible contents, summarised
     if tier != "quick":
+        # the reference pairs of CodecsExt used as stages here (ASCIIHex, RunLength, TIFF predictor of every component
+        # width) invert each other on every string over 5 symbols up to length 5
+        x = tlc("MC_CodecsExt.tla", "MC_CodecsExt.cfg", workers=8, timeout=1500)
+        chk.add_tlc(x)
         paeth_cube(chk, w)
         chk.extra["paeth"] = "full 2^24 cube compared (TLC rows vs decode_row table)"
     else:
